@@ -9,6 +9,36 @@ CLAIMED = {
         note="Trusted: Lean kernel (+propext, Quot.sound), the hand-written model Model/C20.lean (validated, not verified, against fgutils.utils), networkx node iteration order modelled as a list.",
         technique="Lean 4 proof (induction over the node list, loop invariant) + model/implementation correspondence check",
         design_ref="6/C20"),
+    "C09": dict(
+        text="Lean 4 theorems C09.its_exact (Dom G -> Dom H -> abstract view of get_its = itsSpec, a specification on atom-map numbers only), getIts_closed, renumbering_invariant (any injective id renaming / reordering / edge orientation of either side), no_ghost_nodes, one_sided_atoms_contribute_nothing, specCheck_iff/sound, and decide-refutations of the two unrepaired variants; model of get_its (eta dicts as association lists, both node and both edge loops with their guards) compared with the implementation (also through ITS.from_smiles) on every run; proved-sound executable spec applied to every implementation output.",
+        note="Trusted: Lean kernel (+propext, Classical.choice, Quot.sound), Model/C09.lean as model of the Python (networkx/dict semantics as ordered lists; validated by differential testing), RDKit parsing inside ITS.from_smiles taken as given. Domain Dom: distinct ids, present map numbers >= 1 and pairwise distinct, simple graph, bond orders != 0 (map number 0 / negatives / duplicates are generated but out of domain).",
+        technique="Lean 4 proof (closed form of the four loops, association-list lemmas) + model/implementation correspondence check",
+        design_ref="6/C09"),
+    "C10": dict(
+        text="Lean 4 theorems C10.split_exact, splitIts_eq, its_of_split (+ its_of_split_named), split_of_its, smiles_roundtrip_modulo_rdkit (for any map-preserving renamings of the two halves, from C09.renumbering_invariant), splitCheck_iff/sound; models of split_its and of the compositions compared with the implementation on every run (library-made ITS graphs, direct ITS graphs, shuffled ids, order-3/4 bonds, metal-metal quadruple bonds on the legs through RDKit); the literal ITS.to_smiles -> from_smiles leg is exercised through RDKit, whose writer+reader contract is checked per case with RDKit alone.",
+        note="Trusted: Lean kernel (+propext, Classical.choice, Quot.sound), Model/C10.lean + Model/C09.lean (validated), RDKit's SMILES writer followed by its reader being a symbol/bond/map-preserving bijection (assumed; checked per case independently of fgutils; about 0.6% of generated hetero-ring cases break it because sanitisation re-perceives aromaticity - those are counted and put outside the domain).",
+        technique="Lean 4 proof (list induction over the edge fold; corollaries of the C09 refinement theorem) + model/implementation correspondence check",
+        design_ref="6/C10"),
+    "C18": dict(
+        text="Lean 4 theorems C18.roundtrip / roundtrip_with (any transforms with a left inverse), batch, batch_inverse, node_induced, edge_induced, prune_exact, prune_keeps_starts, prune_rc_exact (with Reach.powsum_pos_iff_walk), periodic_table (decide +kernel: the table regenerated from the source equals a hand-written 118-element reference), rtCheck_sound, pruneCheck_sound; tensors modelled as lists; model compared with the real torch/torch_geometric results (.tolist()) on every run incl. batches >= 3, custom transforms, ITSDataset, all edge subsets of small graphs, start sets and radii 0-4; proved-sound executable specs applied to implementation outputs.",
+        note="Trusted: Lean kernel (+propext, Classical.choice, Quot.sound), Model/C18.lean (validated), Batch.from_data_list's concatenation-with-offsets contract (assumed, exercised on every batch case), networkx add_edge semantics. Not modelled: float32 saturation of walk counts in the real prune (dense high-radius probe is reported only).",
+        technique="Lean 4 proof (list induction, walk-counting lemma for adjacency-power sums, decide +kernel on the regenerated periodic table) + model/implementation correspondence check",
+        design_ref="6/C18"),
+    "C12": dict(
+        text="Lean 4 theorems (C12.spec_holds, only_adds_hydrogens, fresh_ids, count, idempotent, specCheck_sound, valence_table_main_group/exact by decide on the table regenerated from the source) prove the property for every well-formed graph with any node ids; the order-faithful model is compared with add_implicit_hydrogens at exact-graph level on every run and the proved-sound executable spec (with an independent hand-written main-group reference table) is applied to every implementation output.",
+        note="Trusted: Lean kernel (+propext, Classical.choice, Quot.sound), Model/C12.lean + Model/Graph.lean as models of the Python / networkx container semantics (validated by differential testing), gen_tables*.py, the reference valence table refRows. Hypothesis WF g (distinct ids, one adjacency row per node, neighbours are nodes) is evaluated by the driver on every case.",
+        technique="Lean 4 proof (fold invariant over the heavy-atom loop; decide on regenerated tables) + model/implementation correspondence check",
+        design_ref="6/C12"),
+    "C17": dict(
+        text="Lean 4 theorem C17.exact / C17.exact_ids (with sound, assert_never_fails, fuel_suffices, sequences_distinct, labels_are_induced_distances, unique_sets, complete, relabel_invariant, order_independent, specCheck_sound): for every simple graph and anchor the model of enumerateCIS/node_induced_connected_subgraphs raises nothing and yields every connected node set containing the anchor exactly once and nothing else, whatever the ids, anchor position and adjacency order; the model is compared with the real generator (set level for the verdict, generator order recorded) on the whole graph atlas (<=6 nodes quick, <=7 thorough) x anchors x relabellings and random larger graphs, and the proved-sound executable spec is applied to every implementation output.",
+        note="Trusted: Lean kernel (+propext, Classical.choice, Quot.sound), Model/C17.lean as model of the Python (validated), nx.relabel_nodes (its output is taken from the real call and cross-checked by relabelConsistent), Python list/int/inf semantics; the optional DAG argument is not modelled.",
+        technique="Lean 4 proof (invariants over the enumeration recursion, BFS-layer distance argument, transport along the anchor relabelling) + model/implementation correspondence check",
+        design_ref="6/C17"),
+    "C19": dict(
+        text="Lean 4 theorems (C19.bridge_roundtrip, normalise_semantics, bridge_roundtrip_semantics, refuses_labels, bond_tables_inverse and sym_table by decide on the regenerated tables, wl_invariant / wl_invariant_digest / mol_compare_invariant for every digest function and renumbering, specCheck_sound) about the model of graph_to_mol/mol_to_graph and of networkx's WL hash; model compared with the real RDKit bridge on every run; SMILES leg and mol_compare exercised on the implementation. Partial: BridgeSpec of the normalised graph w.r.t. adjacency entries (vs. the edge view) is checked at run time on every case (spec_model), not proved; RDKit's own SMILES write/read round trip is exercised, not proved.",
+        note="Trusted: Lean kernel (+propext, Classical.choice, Quot.sound), the RWMol contract (AddAtom returns the running index, iteration in insertion order), RDKit SMILES writer/reader, blake2b abstract, Model/C19.lean validated by differential testing.",
+        technique="Lean 4 proof (list induction; decide on regenerated tables; WL invariance by induction on iterations) + model/implementation correspondence check",
+        design_ref="6/C19"),
 }
 PENDING = {}
 ALL = ["C%02d" % i for i in range(1, 21)]
